@@ -1,6 +1,9 @@
 package interp
 
 import (
+	"bytes"
+	"encoding/csv"
+
 	"github.com/benhoyt/goawk/internal/ast"
 )
 
@@ -246,6 +249,15 @@ func VerifC06RegexFS() {
 	verifAssert(err == nil, "FS regex rejected")
 	line := verifString(verifIntRange(0, verifBound(4, 6)))
 	p.setLine(line, false)
+	// a later change of FS (to another regex, a single character or a space) must not re-split this record
+	switch verifIntRange(0, 3) {
+	case 1:
+		verifAssert(p.setSpecial(ast.V_FS, str("Y+")) == nil, "FS regex rejected")
+	case 2:
+		verifAssert(p.setSpecial(ast.V_FS, str("Y")) == nil, "FS rejected")
+	case 3:
+		verifAssert(p.setSpecial(ast.V_FS, str(" ")) == nil, "FS rejected")
+	}
 	// reference: split at maximal runs of X
 	var want []string
 	if line != "" {
@@ -268,4 +280,69 @@ func VerifC06RegexFS() {
 	p.ensureFields()
 	verifAssert(verifSameStrs(p.fields, want), "regex FS: fields are not the pieces between the leftmost-longest non-empty matches")
 	verifAssert(p.getSpecial(ast.V_NF).num() == float64(len(want)), "regex FS: NF is not the number of fields")
+}
+
+// short histories over small concrete parameter domains with symbolic payloads: stale state from an
+// earlier operation (shrunk field lists, old separators) must never show through a later one
+func VerifC06Histories() {
+	p := &interp{fieldSep: " ", savedFieldSep: " ", outputFieldSep: " ", recordSep: "\n", convertFormat: "%.6g"}
+	r := &verifRec{fs: " ", curFS: " ", ofs: " "}
+	p.setLine("a b c", false)
+	r.line = "a b c"
+	r.fields = verifRefSplit("a b c", " ")
+	nops := verifIntRange(2, verifBound(3, 4))
+	what := ""
+	for k := 0; k < nops; k++ {
+		switch verifIntRange(0, 3) {
+		case 0: // NF = n
+			n := verifIntRange(0, 4)
+			verifAssert(p.setSpecial(ast.V_NF, num(float64(n))) == nil, "NF assignment failed")
+			r.setNF(n)
+			what = "NF = n"
+		case 1: // $j = v
+			j := verifIntRange(1, 4)
+			v := verifString(1)
+			verifAssert(p.setField(j, v) == nil, "field assignment failed")
+			r.set(j, v)
+			what = "$j = v"
+		case 2: // $0 = w
+			w := verifString(verifIntRange(0, 2))
+			for i := 0; i < len(w); i++ {
+				verifAssume(w[i] != '\v' && w[i] != '\f' && w[i] != '\r' && w[i] < 0x80)
+			}
+			verifAssert(p.setField(0, w) == nil, "$0 assignment failed")
+			r.set(0, w)
+			what = "$0 = w"
+		default: // OFS = o
+			o := []string{"", "-", "::"}[verifIntRange(0, 2)]
+			verifAssert(p.setSpecial(ast.V_OFS, str(o)) == nil, "OFS assignment failed")
+			r.ofs = o
+			what = "OFS = o"
+		}
+	}
+	verifSameRecord(p, r, "after a history ending in "+what)
+}
+
+// in CSV/TSV output mode a rebuilt $0 is the CSV encoding of the fields: exactly what print writes
+func VerifC06CSVRebuild() {
+	sep := []rune{',', '\t'}[verifIntRange(0, 1)]
+	p := &interp{fieldSep: " ", savedFieldSep: " ", outputFieldSep: " ", recordSep: "\n", convertFormat: "%.6g", outputFormat: "%.6g",
+		outputMode: CSVMode, csvOutputConfig: CSVOutputConfig{Separator: sep}}
+	p.setLine("a b", false)
+	v1 := verifString(verifIntRange(0, 2))
+	v2 := []string{"b", "", " x", "\\.", "q\"q"}[verifIntRange(0, 4)]
+	for i := 0; i < len(v1); i++ {
+		verifAssume(v1[i] != '\r')
+	}
+	verifAssert(p.setField(1, v1) == nil && p.setField(2, v2) == nil, "field assignment failed")
+	var ref bytes.Buffer
+	w := csv.NewWriter(&ref)
+	w.Comma = sep
+	w.Write([]string{v1, v2})
+	w.Flush()
+	want := ref.String()
+	want = want[:len(want)-1]
+	verifAssert(p.getField(0).s == want, "in CSV/TSV output mode the rebuilt $0 is not the CSV encoding of the fields")
+	var out bytes.Buffer
+	verifAssert(p.printArgs(&out, []value{str(v1), str(v2)}) == nil && out.String() == want+"\n", "print in CSV/TSV output mode does not write the CSV encoding of its arguments")
 }
